@@ -568,7 +568,10 @@ class Fn:
             elif k == 'downcast':
                 e = ('variant', e, pr.get('v', str(pr['vi'])))
             elif k == 'index':
-                e = ('index', e, self.expr_local(pr['l'], seen))
+                # built-in indexing of an array / slice place: same shape as the Index::index call a Vec produces, so that
+                # `&Vec<T>` -> `&[T]` in a signature does not change what rules see
+                e = ('call', 'std::ops::Index::index', (e, self.expr_local(pr['l'], seen)), None,
+                     _Info({'name': 'index', 'trait': 'std::ops::Index', 'proj': True, 'local': False}))
             elif k == 'cindex':
                 e = ('index', e, ('const', pr['off'], None, 'usize'))
             else:
@@ -1633,7 +1636,13 @@ def path_facts(f, path):
             else:
                 vals = [v for v, b2 in t['ts'] if b2 == nxt]
                 if len(vals) != 1:
-                    continue
+                    # the otherwise edge of a two-variant enum (`if let Some(x) = ..`) names the other variant
+                    names = f.facts.variant_names(e[2]) if e[0] == 'discr' else {}
+                    rest = [v for v in names if v not in [v2 for v2, _ in t['ts']]]
+                    if not vals and nxt == t['o'] and len(rest) == 1:
+                        vals = rest
+                    else:
+                        continue
                 val = vals[0]
                 if e[0] == 'discr':
                     val = f.facts.variant_names(e[2]).get(val, val)
@@ -1726,7 +1735,7 @@ def _renumber_term(t, loff, boff):
     return t2
 
 
-def inlinable(F, g, max_blocks=60):
+def inlinable(F, g, max_blocks=200):
     """a callee whose body can be spliced into its caller: crate-local, synchronous, not derived, small"""
     return not (g.derived or g.coroutine or F.is_async(g.path) or
                 sum(1 for b in g.blocks if not b.get('cleanup')) > max_blocks)
@@ -1849,7 +1858,7 @@ def compose_chain(F, f, e):
         if nm == 'enumerate':
             elem = ('agg', 'tuple', None, None, (('0', ('var', '$index')), ('1', elem)))
             continue
-        if nm in ('filter_map', 'map', 'flat_map', 'find_map') and clo:
+        if nm in ('filter_map', 'map', 'flat_map', 'find_map', 'map_while') and clo:
             cf = F.fn(clo)
             if nm == 'map':
                 body = closure_result(cf)
@@ -1869,3 +1878,51 @@ def param_root(f, e):
     p = access_path(e) or ''
     root = p.split('.')[0].split('<')[0].split('[')[0]
     return any(v.get('n') == root and 'arg' in v for v in f.raw['vars']) or re.match(r'arg\d+$', root) is not None
+
+
+def option_tests(f):
+    """[(subject_expr, switch_bb, none_target, some_target)] for every test of an Option in f: a match / if-let on its
+    discriminant, or a branch on is_none() / is_some() (with `!`, `== false`)"""
+    out = []
+    for sb in f.switches():
+        e, ts, o = f.cond(sb)
+        if e[0] == 'discr' and e[2].startswith('std::option::Option'):
+            ve = f.variant_edges(sb, fill=True)
+            if ve and 'None' in ve and 'Some' in ve:
+                out.append((e[1], sb, ve['None'], ve['Some']))
+            continue
+        neg = False
+        while True:
+            if e[0] == 'unop' and e[1] == 'Not':
+                neg = not neg
+                e = e[2]
+                continue
+            if e[0] == 'binop' and e[1] in ('Eq', 'Ne') and e[3][0] == 'const' and e[3][3] == 'bool':
+                if (e[1] == 'Eq') != bool(e[3][1]):
+                    neg = not neg
+                e = e[2]
+                continue
+            break
+        be = f.bool_edges(sb)
+        if be and e[0] == 'call' and e[4].get('name') in ('is_none', 'is_some') and e[2]:
+            tt, ff = (be[1], be[0]) if neg else be
+            if e[4]['name'] == 'is_none':
+                out.append((e[2][0], sb, tt, ff))
+            else:
+                out.append((e[2][0], sb, ff, tt))
+    return out
+
+
+
+def canon_atoms(atoms):
+    """branch atoms with comparison keys in one polarity: Ne -> !Eq, Ge -> !Lt, Le -> !Gt, ne() -> !eq()"""
+    out = {}
+    for k, v in atoms.items():
+        if isinstance(v, bool):
+            for a, b in (('Ne(', 'Eq('), ('Ge(', 'Lt('), ('Le(', 'Gt('), ('std::cmp::PartialEq::ne(', 'std::cmp::PartialEq::eq('),
+                         ('std::cmp::PartialOrd::ge(', 'std::cmp::PartialOrd::lt('), ('std::cmp::PartialOrd::le(', 'std::cmp::PartialOrd::gt(')):
+                if k.startswith(a):
+                    k, v = b + k[len(a):], not v
+                    break
+        out[k] = v
+    return out
